@@ -188,3 +188,11 @@ Example C14_count_inits_example :
   Forall line_ok lines /\ Forall single_star lines /\ map is_initb lines = [false; true; false; false; true; false] /\
   count_inits (join_nl lines) = 2%nat.
 Proof. cbv zeta. split; [repeat constructor|]. split; [repeat constructor|]. vm_compute. auto. Qed.
+
+(* rfind of the transcription (count_terminates looks backwards for the arrow and the line end in front of a "[*]"):
+   it answers a position at which the pattern occurs, not behind the limit, and no earlier than any such occurrence *)
+Theorem C14_rfind_finds_last_occurrence : forall pat s i limit best d,
+  (d <= length s)%nat -> is_prefix pat (skipn d s) = true -> i + N.of_nat d <= limit -> i + N.of_nat (length s) < npos ->
+  i + N.of_nat d <= rfind_at pat s i limit best <= limit.
+Proof. exact rfind_at_ge. Qed.
+Print Assumptions C14_rfind_finds_last_occurrence.
